@@ -11,4 +11,5 @@ package xpull
 //@   lock Mutex level 20
 //@   guarded_by Mutex: closed sizeQ recvQ recvQLen resizeDiscards recvExpire
 //@   immutable: closeQ
+//@   elem_invariant recvQ: !shared(elem)
 //@
